@@ -27,7 +27,8 @@ META = {
         "reported; description clean-up only strips separators and "
         "whole-word connectors by position. Two listed findings: a length "
         "guard on unused-text flags, and the wildcard before a P.M. "
-        "designation."),
+        "designation."
+        ' Also: no word wildcard inside multisec_regex / twprge_regex, cull vocabulary is the accepted connector set, sub_scrubber replaces by position, layout dispatch chains are exhaustive.'),
     'families': ['SINK', 'ORDER', 'TBL', 'STRIPSET'],
 }
 
